@@ -457,7 +457,7 @@ def _custom_builder(Builder):
     return SearchPathBuilder
 
 
-def _child(files, calls, fs_faults, pre_calls, entry='builder', mid_build=None, repair=None):
+def _child(files, calls, fs_faults, pre_calls, entry='builder', mid_build=None, repair=None, prelude=False):
     from awesomeyaml import Builder, Config, errors
     import io
     import pathlib
@@ -494,6 +494,13 @@ def _child(files, calls, fs_faults, pre_calls, entry='builder', mid_build=None, 
             fs.cwd = CWD
             if any(f.get('kind') == 'cwd_gone' for f in fs_faults):
                 fs.cwd_gone = True
+            if prelude:
+                # earlier in the life of this builder: another working directory, a source whose include is found through it, a build
+                fs.files['/w/earlier_cwd/zz_probe_inc.yaml'] = '{zz_probe: 1}\n'
+                fs.cwd = '/w/earlier_cwd'
+                b.add_source('!include zz_probe_inc.yaml\n', raw_yaml=True)
+                b.build()
+                fs.cwd = CWD
             for c in pre_calls:
                 try:
                     add(b, c)
@@ -520,6 +527,8 @@ def _child(files, calls, fs_faults, pre_calls, entry='builder', mid_build=None, 
                 root = b.build()
             stage = 'eval'
             cfg = Config(root)
+            if prelude:
+                cfg.pop('zz_probe', None)
             out['status'] = 'ok'
             paths = {}
             _walk_paths(cfg, paths)
@@ -548,9 +557,9 @@ class _Done(Exception):
     pass
 
 
-def _run(mat, fs_faults=(), pre_calls=(), drop=(), entry='builder', mid_build=None, repair=None):
+def _run(mat, fs_faults=(), pre_calls=(), drop=(), entry='builder', mid_build=None, repair=None, prelude=False):
     files = {k: v for k, v in mat['files'].items() if k not in drop}
-    c = core.fork_call(_child, (files, mat['calls'], list(fs_faults), list(pre_calls), entry, mid_build, repair), timeout=40)
+    c = core.fork_call(_child, (files, mat['calls'], list(fs_faults), list(pre_calls), entry, mid_build, repair, prelude), timeout=40)
     if c['status'] != 'ok':
         raise core.HarnessError(f'{c["status"]}: {c.get("error", c.get("signal", ""))}')
     return c['value']
@@ -663,6 +672,20 @@ def execute(sc):
                     break
                 if not _check_paths(sc, mat, obs, res, label):
                     break
+                if mat['includes'] and plan[0]['seed'] % 3 == 2:
+                    # the same builder had an earlier life in another working directory (a source with a cwd-resolved include, a build):
+                    # what counts for the lookups now is the working directory now
+                    ob7 = _run(mat, prelude=True)
+                    st['runs'] += 1
+                    count(probes, 'builder_used_before_in_another_cwd')
+                    if ob7['status'] != 'ok':
+                        res['violations'].append(core.violation('route.outcome', f'{label}: on a builder that was used (and built) earlier while the working directory was another one, the build fails at stage {ob7.get("stage")}: '
+                                                                f'{ob7["exc"]["type"]}: {ob7["exc"]["msg"][:400]}', ref='ok', stage=ob7.get('stage')))
+                        break
+                    if ob7['cfg'] != ref['cfg']:
+                        d = _first_diff(ob7['cfg'], ref['cfg'])
+                        res['violations'].append(core.violation('route.config', f'{label}: on a builder used earlier in another working directory the config differs at {d[0]}: {d[1]!r} vs {d[2]!r}', kinds='earlier_cwd'))
+                        break
                 if _cwd_independent(sc, mat):
                     # nothing here needs the working directory (absolute source names, every include found next to the including
                     # file): the build must not depend on it - not even on its existence
